@@ -117,6 +117,7 @@ class DesignPart(Part):
         for lib, fn, _ in D['files']: libs.setdefault(lib, []).append(fn)
         c = {'dir': os.path.join(build.BUILD, 'scratch', f'q-{os.getpid()}'), 'std': os.path.join(build.REPO, 'vhdl_libraries', 'std'),
              'libs': [[k, v] for k, v in libs.items()], 'texts': {fn: t for _, fn, t in D['files']}, 'names': [fn for _, fn, _ in D['files']], 'design': D['name']}
+        if 'ieee' in libs: c['third_party'] = ['ieee']
         c.update(extra)
         return c
 
